@@ -258,6 +258,24 @@ theorem finish_pc (s : State) (r i : Nat) (go : Option Nat) (res : Option Res) :
     (finish s r i go res).pc = (s.setPc r i (.finished res)).pc := by
   cases go <;> rfl
 
+theorem gcFinish_locks (env : Env) (s : State) (r : Nat) (go : Option Nat) :
+    (gcFinish env s r go).locks = relLocks s.locks go := by
+  cases go <;> rfl
+
+theorem gcFinish_pc (env : Env) (s : State) (r : Nat) (go : Option Nat) :
+    (gcFinish env s r go).pc = (s.setPc r env.gcInst (.finished none)).pc := by
+  cases go <;> rfl
+
+theorem gcFinish_ops (env : Env) (s : State) (r : Nat) (go : Option Nat) :
+    (gcFinish env s r go).ops = s.ops := by cases go <;> rfl
+
+theorem gcFinish_calls (env : Env) (s : State) (r : Nat) (go : Option Nat) :
+    (gcFinish env s r go).calls = s.calls := by cases go <;> rfl
+
+theorem gcFinish_run (env : Env) (s : State) (r : Nat) (go : Option Nat) :
+    (gcFinish env s r go).run = (s.setRun r { s.run r with pc := .gcOver }).run := by
+  cases go <;> rfl
+
 theorem invL_step {env : Env} {s : State} (h : InvL env s) (ev : Ev) : InvL env (step env s ev).1 := by
   cases ev with
   | begin r => simp only [step]; split <;> first | exact h | exact invL_congr h rfl rfl
@@ -278,7 +296,11 @@ theorem invL_step {env : Env} {s : State} (h : InvL env s) (ev : Ev) : InvL env 
     simp only [step]; split
     · split <;> first | exact h | exact invL_congr h rfl rfl
     · exact h
-  | ret r => simp only [step]; split <;> first | exact h | exact invL_congr h rfl rfl
+  | ret r =>
+    simp only [step]; split
+    · split <;> first | exact h | exact invL_congr h rfl rfl
+    · exact invL_congr h rfl rfl
+    · exact h
   | cancel r =>
     simp only [step]
     refine ⟨Locks.inv_step h.locks _, ?_, ?_, ?_⟩
@@ -287,6 +309,9 @@ theorem invL_step {env : Env} {s : State} (h : InvL env s) (ev : Ev) : InvL env 
     · intro gr hgr; exact h.owner gr hgr
   | tryLock r i =>
     simp only [step]; split
+    · exact h
+    rename_i hgc
+    split
     · rename_i hpc
       split
       · split
@@ -299,6 +324,9 @@ theorem invL_step {env : Env} {s : State} (h : InvL env s) (ev : Ev) : InvL env 
     · exact h
   | getOps r i =>
     simp only [step]; split
+    · exact h
+    rename_i hgc
+    split
     · rename_i g hpc
       split
       · exact invL_progress h r i _ rfl rfl (by simp [hpc, Pc.holds])
@@ -306,26 +334,41 @@ theorem invL_step {env : Env} {s : State} (h : InvL env s) (ev : Ev) : InvL env 
     · exact h
   | fetch r i =>
     simp only [step]; split
+    · exact h
+    rename_i hgc
+    split
     · rename_i g prev hpc
       split <;> exact invL_progress h r i _ rfl rfl (by simp [hpc, Pc.holds])
     · exact h
   | parse r i =>
     simp only [step]; split
+    · exact h
+    rename_i hgc
+    split
     · rename_i g prev fp hpc
       split <;> exact invL_progress h r i _ rfl rfl (by simp [hpc, Pc.holds])
     · exact h
   | store r i =>
     simp only [step]; split
+    · exact h
+    rename_i hgc
+    split
     · rename_i g prev fp p hpc
       split <;> exact invL_progress h r i _ rfl rfl (by simp [hpc, Pc.holds])
     · exact h
   | status r i =>
     simp only [step]; split
+    · exact h
+    rename_i hgc
+    split
     · rename_i g fp res hpc
       exact invL_progress h r i _ rfl rfl (by simp [hpc, Pc.holds])
     · exact h
   | done r i =>
     simp only [step]; split
+    · exact h
+    rename_i hgc
+    split
     · rename_i g hpc
       exact invL_finish h r i _ g (by simp [hpc, Pc.holds]) (finish_locks ..) (finish_pc ..) rfl
     · rename_i g hpc
@@ -334,6 +377,36 @@ theorem invL_step {env : Env} {s : State} (h : InvL env s) (ev : Ev) : InvL env 
       · exact h
     · rename_i g res hpc
       exact invL_finish h r i _ (some g) (by simp [hpc, Pc.holds]) (finish_locks ..) (finish_pc ..) rfl
+    · exact h
+  | gcTry r =>
+    simp only [step]; split
+    · split
+      · rename_i hc
+        split
+        · exact invL_progress h r env.gcInst (.skipped none) rfl rfl (by simp [hc.2, Pc.holds])
+        · rename_i hfree
+          split
+          · exact invL_acquire h r env.gcInst _ hfree (by simp [hc.2, Pc.holds]) rfl rfl rfl
+          · exact invL_acquire h r env.gcInst _ hfree (by simp [hc.2, Pc.holds]) rfl rfl rfl
+      · exact h
+    · exact h
+  | gc r =>
+    simp only [step]; split
+    · split
+      · rename_i g hpc
+        exact invL_progress h r env.gcInst _ rfl rfl (by simp [hpc, Pc.holds])
+      · exact h
+    · exact h
+  | gcDone r =>
+    simp only [step]; split
+    · split
+      · rename_i g hpc
+        exact invL_finish h r env.gcInst _ g (by simp [hpc, Pc.holds]) (gcFinish_locks ..) (gcFinish_pc ..) rfl
+      · rename_i g hpc
+        split
+        · exact invL_finish h r env.gcInst _ (some g) (by simp [hpc, Pc.holds]) (gcFinish_locks ..) (gcFinish_pc ..) rfl
+        · exact h
+      · exact h
     · exact h
 
 /-! ### the data invariant: store contents, calls per worker, fingerprints -/
@@ -505,10 +578,17 @@ theorem invD_step {env : Env} {hist : List Op} {s : State} (hL : InvL env s) (h 
     simp only [step]; split
     · split <;> first | exact h | exact invD_congr h rfl rfl rfl
     · exact h
-  | ret r => simp only [step]; split <;> first | exact h | exact invD_congr h rfl rfl rfl
+  | ret r =>
+    simp only [step]; split
+    · split <;> first | exact h | exact invD_congr h rfl rfl rfl
+    · exact invD_congr h rfl rfl rfl
+    · exact h
   | cancel r => simp only [step]; exact invD_congr h rfl rfl rfl
   | tryLock r i =>
     simp only [step]; split
+    · exact h
+    rename_i hgc
+    split
     · rename_i hpc
       split
       · split
@@ -523,6 +603,9 @@ theorem invD_step {env : Env} {hist : List Op} {s : State} (hL : InvL env s) (h 
     · exact h
   | getOps r i =>
     simp only [step]; split
+    · exact h
+    rename_i hgc
+    split
     · rename_i g hpc
       split
       · rename_i hok
@@ -534,6 +617,9 @@ theorem invD_step {env : Env} {hist : List Op} {s : State} (hL : InvL env s) (h 
     · exact h
   | fetch r i =>
     simp only [step]; split
+    · exact h
+    rename_i hgc
+    split
     · rename_i g prev hpc
       have he := h.expl r i
       rw [hpc] at he
@@ -559,6 +645,9 @@ theorem invD_step {env : Env} {hist : List Op} {s : State} (hL : InvL env s) (h 
     · exact h
   | parse r i =>
     simp only [step]; split
+    · exact h
+    rename_i hgc
+    split
     · rename_i g prev fp hpc
       have he := h.expl r i
       rw [hpc] at he
@@ -574,6 +663,9 @@ theorem invD_step {env : Env} {hist : List Op} {s : State} (hL : InvL env s) (h 
     · exact h
   | store r i =>
     simp only [step]; split
+    · exact h
+    rename_i hgc
+    split
     · rename_i g prev fp p hpc
       split
       · rename_i hok
@@ -588,6 +680,9 @@ theorem invD_step {env : Env} {hist : List Op} {s : State} (hL : InvL env s) (h 
     · exact h
   | status r i =>
     simp only [step]; split
+    · exact h
+    rename_i hgc
+    split
     · rename_i g fp res hpc
       have he := h.expl r i
       rw [hpc] at he
@@ -597,6 +692,9 @@ theorem invD_step {env : Env} {hist : List Op} {s : State} (hL : InvL env s) (h 
     · exact h
   | done r i =>
     simp only [step]; split
+    · exact h
+    rename_i hgc
+    split
     · rename_i g hpc
       exact invD_progress h r i (.finished none) (finish_ops ..) (finish_calls ..) (finish_pc ..)
         (by simp [hpc, pcCalls]) (by intro g' prev' he; cases he) (by simp [Explains])
@@ -611,6 +709,41 @@ theorem invD_step {env : Env} {hist : List Op} {s : State} (hL : InvL env s) (h 
       exact invD_progress h r i (.finished (some res)) (finish_ops ..) (finish_calls ..) (finish_pc ..)
         (by rw [hpc]; exact pcCalls_finished g res) (by intro g' prev' he; cases he) he
     · exact h
+  | gcTry r =>
+    simp only [step]; split
+    · split
+      · rename_i hc
+        split
+        · exact invD_progress h r env.gcInst (.skipped none) rfl rfl rfl (by simp [hc.2, pcCalls])
+            (by intro g prev he; cases he) (by simp [Explains])
+        · split
+          · exact invD_progress h r env.gcInst (.skipped (some s.locks.issued)) rfl rfl rfl (by simp [hc.2, pcCalls])
+              (by intro g prev he; cases he) (by simp [Explains])
+          · exact invD_progress h r env.gcInst (.locked s.locks.issued) rfl rfl rfl (by simp [hc.2, pcCalls])
+              (by intro g prev he; cases he) (by simp [Explains])
+      · exact h
+    · exact h
+  | gc r =>
+    simp only [step]; split
+    · split
+      · rename_i g hpc
+        exact invD_progress h r env.gcInst _ rfl rfl rfl (by simp [hpc, pcCalls])
+          (by intro g' prev' he; cases he) (by simp [Explains])
+      · exact h
+    · exact h
+  | gcDone r =>
+    simp only [step]; split
+    · split
+      · rename_i g hpc
+        exact invD_progress h r env.gcInst (.finished none) (gcFinish_ops ..) (gcFinish_calls ..) (gcFinish_pc ..)
+          (by simp [hpc, pcCalls]) (by intro g' prev' he; cases he) (by simp [Explains])
+      · rename_i g hpc
+        split
+        · exact invD_progress h r env.gcInst (.finished none) (gcFinish_ops ..) (gcFinish_calls ..) (gcFinish_pc ..)
+            (by simp [hpc, pcCalls]) (by intro g' prev' he; cases he) (by simp [Explains])
+        · exact h
+      · exact h
+    · exact h
 
 /-! ### the run-level invariant: semaphore accounting, who ran, who is named -/
 
@@ -621,18 +754,23 @@ def unfinished (s : State) (r : Nat) : Nat :=
 def RunPc.loopOver : RunPc → Bool
   | .waiting => true
   | .drained => true
+  | .inGc => true
+  | .gcOver => true
   | .returned => true
   | _ => false
 
 def RunPc.isDrained : RunPc → Bool
   | .drained => true
+  | .inGc => true
+  | .gcOver => true
   | .returned => true
   | _ => false
 
 structure InvR (env : Env) (s : State) : Prop where
   nodup : ∀ r, (s.run r).tried.Nodup
   sub : ∀ r i, i ∈ (s.run r).tried → i ∈ env.toRun r
-  idle : ∀ r i, s.pc r i = .idle ↔ i ∉ (s.run r).tried
+  idle : ∀ r i, i ≠ env.gcInst → (s.pc r i = .idle ↔ i ∉ (s.run r).tried)
+  gcNotTried : ∀ r, env.gcInst ∉ (s.run r).tried
   triedLe : ∀ r, (s.run r).tried.length ≤ (s.run r).launchedN
   launchedLe : ∀ r, (s.run r).launchedN ≤ (env.toRun r).length
   acq : ∀ r b, (s.run r).pc = .acquiring b → (s.run r).launchedN < (env.toRun r).length
@@ -696,9 +834,12 @@ theorem invR_setRun {env : Env} {s : State} (h : InvR env s) (r0 : Nat) (x : Run
   · intro r i; rw [setRun_run]; split
     · rename_i he; rw [htried, he]; exact h.sub r0 i
     · exact h.sub r i
-  · intro r i; rw [setRun_run, setRun_pc]; split
-    · rename_i he; rw [htried, he]; exact h.idle r0 i
-    · exact h.idle r i
+  · intro r i hi; rw [setRun_run, setRun_pc]; split
+    · rename_i he; rw [htried, he]; exact h.idle r0 i hi
+    · exact h.idle r i hi
+  · intro r; rw [setRun_run]; split
+    · rw [htried]; exact h.gcNotTried r0
+    · exact h.gcNotTried r
   · intro r; rw [setRun_run]; split
     · exact hle
     · exact h.triedLe r
@@ -735,6 +876,7 @@ theorem not_errs_of_unfinished {env : Env} {s : State} (h : InvR env s) {r i : N
 theorem invR_progress {env : Env} {s s' : State} (h : InvR env s) (r i : Nat) (p : Pc)
     (hrun : s'.run = s.run) (hpc : s'.pc = (s.setPc r i p).pc)
     (hdead : ∀ r, dead s r = true → dead s' r = true)
+    (hgc : i ≠ env.gcInst)
     (hold1 : s.pc r i ≠ .idle) (hold2 : (s.pc r i).isFinished = false)
     (hp1 : p ≠ .idle) (hp2 : p.isFinished = false) : InvR env s' := by
   have hun : ∀ r', unfinished s' r' = unfinished s r' := by
@@ -749,12 +891,13 @@ theorem invR_progress {env : Env} {s s' : State} (h : InvR env s) (r i : Nat) (p
   constructor
   · intro r'; rw [hrun]; exact h.nodup r'
   · intro r' j; rw [hrun]; exact h.sub r' j
-  · intro r' j; rw [hrun, hpc, setPc_pc]; split
+  · intro r' j hj; rw [hrun, hpc, setPc_pc]; split
     · rename_i he; rw [he.1, he.2]
       constructor
       · intro hh; exact absurd hh hp1
-      · intro hh; exact absurd ((h.idle r i).2 hh) hold1
-    · exact h.idle r' j
+      · intro hh; exact absurd ((h.idle r i hgc).2 hh) hold1
+    · exact h.idle r' j hj
+  · intro r'; rw [hrun]; exact h.gcNotTried r'
   · intro r'; rw [hrun]; exact h.triedLe r'
   · intro r'; rw [hrun]; exact h.launchedLe r'
   · intro r' b; rw [hrun]; exact h.acq r' b
@@ -774,13 +917,13 @@ theorem invR_progress {env : Env} {s s' : State} (h : InvR env s) (r i : Nat) (p
 
 /-- A launched goroutine reaches TryLock: the worker becomes known. -/
 theorem invR_try {env : Env} {s s' : State} (h : InvR env s) (r i : Nat) (p : Pc)
-    (hidle : s.pc r i = .idle) (hin : i ∈ env.toRun r)
+    (hgc : i ≠ env.gcInst) (hidle : s.pc r i = .idle) (hin : i ∈ env.toRun r)
     (hlt : (s.run r).tried.length < (s.run r).launchedN)
     (hrun : s'.run = (s.setRun r { s.run r with tried := i :: (s.run r).tried }).run)
     (hpc : s'.pc = (s.setPc r i p).pc)
     (hdead : ∀ r, dead s r = true → dead s' r = true)
     (hp1 : p ≠ .idle) (hp2 : p.isFinished = false) : InvR env s' := by
-  have hnot : i ∉ (s.run r).tried := (h.idle r i).1 hidle
+  have hnot : i ∉ (s.run r).tried := (h.idle r i hgc).1 hidle
   have hun : ∀ r', unfinished s' r' = if r' = r then unfinished s r + 1 else unfinished s r' := by
     intro r'
     simp only [unfinished, hrun, setRun_run]
@@ -810,15 +953,22 @@ theorem invR_try {env : Env} {s s' : State} (h : InvR env s) (r i : Nat) (p : Pc
       · rw [he]; exact hin
       · exact h.sub r' j he
     · exact h.sub r' j
-  · intro r' j; rw [hrun, setRun_run, hpc, setPc_pc]
+  · intro r' j hjg; rw [hrun, setRun_run, hpc, setPc_pc]
     by_cases hr : r' = r
     · subst hr
       by_cases hj : j = i
       · subst hj; simp [hp1]
       · simp only [hj, and_false, if_false, if_true, List.mem_cons, false_or]
-        exact h.idle r' j
+        exact h.idle r' j hjg
     · simp only [hr, false_and, if_false]
-      exact h.idle r' j
+      exact h.idle r' j hjg
+  · intro r'; rw [hrun, setRun_run]; split
+    · rename_i he; subst he
+      intro hm
+      rcases List.mem_cons.1 hm with he | he
+      · exact hgc he.symm
+      · exact h.gcNotTried r' he
+    · exact h.gcNotTried r'
   · intro r'; rw [hrun, setRun_run]; split
     · rename_i he; subst he; simp only [List.length_cons]; omega
     · exact h.triedLe r'
@@ -892,10 +1042,10 @@ theorem dead_relLocks (s : State) (go : Option Nat) (r : Nat) :
 /-- The worker leaves: its semaphore token is returned and, if driveUpdater
     failed, its instance is put on the error channel. -/
 theorem invR_finish {env : Env} {s : State} (h : InvR env s) (r i : Nat) (go : Option Nat) (res : Option Res)
-    (hold1 : s.pc r i ≠ .idle) (hold2 : (s.pc r i).isFinished = false) :
+    (hgc : i ≠ env.gcInst) (hold1 : s.pc r i ≠ .idle) (hold2 : (s.pc r i).isFinished = false) :
     InvR env (finish s r i go res) := by
   have hin : i ∈ (s.run r).tried := by
-    have := h.idle r i
+    have := h.idle r i hgc
     exact Decidable.byContradiction fun hn => hold1 (this.2 hn)
   have hrun := finish_run s r i go res
   have hpc := finish_pc s r i go res
@@ -923,15 +1073,18 @@ theorem invR_finish {env : Env} {s : State} (h : InvR env s) (r i : Nat) (go : O
   · intro r' j; rw [hrun, setRun_run]; split
     · rename_i he; subst he; exact h.sub r' j
     · exact h.sub r' j
-  · intro r' j; rw [hrun, setRun_run, hpc, setPc_pc]
+  · intro r' j hjg; rw [hrun, setRun_run, hpc, setPc_pc]
     by_cases hr : r' = r
     · subst hr
       by_cases hj : j = i
       · subst hj; simp [hin]
       · simp only [hj, and_false, if_false, if_true]
-        exact h.idle r' j
+        exact h.idle r' j hjg
     · simp only [hr, false_and, if_false]
-      exact h.idle r' j
+      exact h.idle r' j hjg
+  · intro r'; rw [hrun, setRun_run]; split
+    · rename_i he; subst he; exact h.gcNotTried r'
+    · exact h.gcNotTried r'
   · intro r'; rw [hrun, setRun_run]; split
     · rename_i he; subst he; exact h.triedLe r'
     · exact h.triedLe r'
@@ -989,6 +1142,7 @@ theorem invR_cancel {env : Env} {s : State} (h : InvR env s) (r0 : Nat) :
   · exact h.nodup
   · exact h.sub
   · exact h.idle
+  · exact h.gcNotTried
   · exact h.triedLe
   · exact h.launchedLe
   · exact h.acq
@@ -1003,6 +1157,43 @@ theorem invR_cancel {env : Env} {s : State} (h : InvR env s) (r0 : Nat) :
       simp at ha ⊢
       exact Or.inr ha
   · exact h.quiet
+
+/-- The GC section's program-counter slot changes (it is nobody's worker). -/
+theorem invR_slot {env : Env} {s s' : State} (h : InvR env s) (r : Nat) (p : Pc)
+    (hrun : s'.run = s.run) (hpc : s'.pc = (s.setPc r env.gcInst p).pc)
+    (hdead : ∀ r, dead s r = true → dead s' r = true)
+    (hold : ∀ res, s.pc r env.gcInst ≠ .finished (some res))
+    (hnew : ∀ res, p ≠ .finished (some res)) : InvR env s' := by
+  have hun : ∀ r', unfinished s' r' = unfinished s r' := by
+    intro r'
+    simp only [unfinished, hrun]
+    apply List.countP_congr
+    intro j hj
+    have hne : j ≠ env.gcInst := fun he => h.gcNotTried r' (he ▸ hj)
+    rw [hpc, setPc_pc_ne _ _ _ _ _ _ (fun hh => hne hh.2)]
+  constructor
+  · intro r'; rw [hrun]; exact h.nodup r'
+  · intro r' j; rw [hrun]; exact h.sub r' j
+  · intro r' j hj; rw [hrun, hpc, setPc_pc_ne _ _ _ _ _ _ (fun hh => hj hh.2)]; exact h.idle r' j hj
+  · intro r'; rw [hrun]; exact h.gcNotTried r'
+  · intro r'; rw [hrun]; exact h.triedLe r'
+  · intro r'; rw [hrun]; exact h.launchedLe r'
+  · intro r' b; rw [hrun]; exact h.acq r' b
+  · intro r'; rw [hun, hrun]; exact h.count r'
+  · intro r'; rw [hrun]; exact h.batch r'
+  · intro r' j; rw [hrun, hpc, setPc_pc]; split
+    · rename_i he; rw [he.1, he.2]
+      constructor
+      · intro hm
+        obtain ⟨res, hres, _⟩ := (h.errs r env.gcInst).1 hm
+        exact absurd hres (hold res)
+      · rintro ⟨res, hres, _⟩; exact absurd hres (hnew res)
+    · exact h.errs r' j
+  · intro r' hl; rw [hrun] at hl ⊢
+    rcases h.all r' hl with ha | ha
+    · exact Or.inl ha
+    · exact Or.inr (hdead r' ha)
+  · intro r'; rw [hrun]; exact h.quiet r'
 
 theorem invR_step {env : Env} {s : State} (h : InvR env s) (ev : Ev) : InvR env (step env s ev).1 := by
   cases ev with
@@ -1057,62 +1248,132 @@ theorem invR_step {env : Env} {s : State} (h : InvR env s) (ev : Ev) : InvR env 
   | ret r =>
     simp only [step]; split
     · rename_i hpc
+      split
+      · exact h
+      · exact invR_setRun h r _ rfl rfl (h.launchedLe r) (h.triedLe r) (by intro b hb; cases hb) (h.count r)
+          (h.batch r) (fun _ => h.all r (by rw [hpc]; rfl)) (fun _ => h.quiet r (by rw [hpc]; rfl))
+    · rename_i hpc
       exact invR_setRun h r _ rfl rfl (h.launchedLe r) (h.triedLe r) (by intro b hb; cases hb) (h.count r)
         (h.batch r) (fun _ => h.all r (by rw [hpc]; rfl)) (fun _ => h.quiet r (by rw [hpc]; rfl))
     · exact h
   | cancel r => simp only [step]; exact invR_cancel h r
   | tryLock r i =>
     simp only [step]; split
+    · exact h
+    rename_i hgc
+    split
     · rename_i hpc
       split
       · rename_i hc
         split
-        · exact invR_try h r i _ hpc hc.1 hc.2 rfl rfl (fun _ hh => hh) (by intro hh; cases hh) rfl
+        · exact invR_try h r i _ hgc hpc hc.1 hc.2 rfl rfl (fun _ hh => hh) (by intro hh; cases hh) rfl
         · split
-          · exact invR_try h r i _ hpc hc.1 hc.2 rfl rfl (fun _ hh => hh) (by intro hh; cases hh) rfl
-          · exact invR_try h r i _ hpc hc.1 hc.2 rfl rfl (fun _ hh => hh) (by intro hh; cases hh) rfl
+          · exact invR_try h r i _ hgc hpc hc.1 hc.2 rfl rfl (fun _ hh => hh) (by intro hh; cases hh) rfl
+          · exact invR_try h r i _ hgc hpc hc.1 hc.2 rfl rfl (fun _ hh => hh) (by intro hh; cases hh) rfl
       · exact h
     · exact h
   | getOps r i =>
     simp only [step]; split
+    · exact h
+    rename_i hgc
+    split
     · rename_i g hpc
-      split <;> exact invR_progress h r i _ rfl rfl (fun _ hh => hh) (by rw [hpc]; intro hh; cases hh)
+      split <;> exact invR_progress h r i _ rfl rfl (fun _ hh => hh) hgc (by rw [hpc]; intro hh; cases hh)
         (by rw [hpc]; rfl) (by intro hh; cases hh) rfl
     · exact h
   | fetch r i =>
     simp only [step]; split
+    · exact h
+    rename_i hgc
+    split
     · rename_i g prev hpc
-      split <;> exact invR_progress h r i _ rfl rfl (fun _ hh => hh) (by rw [hpc]; intro hh; cases hh)
+      split <;> exact invR_progress h r i _ rfl rfl (fun _ hh => hh) hgc (by rw [hpc]; intro hh; cases hh)
         (by rw [hpc]; rfl) (by intro hh; cases hh) rfl
     · exact h
   | parse r i =>
     simp only [step]; split
+    · exact h
+    rename_i hgc
+    split
     · rename_i g prev fp hpc
-      split <;> exact invR_progress h r i _ rfl rfl (fun _ hh => hh) (by rw [hpc]; intro hh; cases hh)
+      split <;> exact invR_progress h r i _ rfl rfl (fun _ hh => hh) hgc (by rw [hpc]; intro hh; cases hh)
         (by rw [hpc]; rfl) (by intro hh; cases hh) rfl
     · exact h
   | store r i =>
     simp only [step]; split
+    · exact h
+    rename_i hgc
+    split
     · rename_i g prev fp p hpc
-      split <;> exact invR_progress h r i _ rfl rfl (fun _ hh => hh) (by rw [hpc]; intro hh; cases hh)
+      split <;> exact invR_progress h r i _ rfl rfl (fun _ hh => hh) hgc (by rw [hpc]; intro hh; cases hh)
         (by rw [hpc]; rfl) (by intro hh; cases hh) rfl
     · exact h
   | status r i =>
     simp only [step]; split
+    · exact h
+    rename_i hgc
+    split
     · rename_i g fp res hpc
-      exact invR_progress h r i _ rfl rfl (fun _ hh => hh) (by rw [hpc]; intro hh; cases hh)
+      exact invR_progress h r i _ rfl rfl (fun _ hh => hh) hgc (by rw [hpc]; intro hh; cases hh)
         (by rw [hpc]; rfl) (by intro hh; cases hh) rfl
     · exact h
   | done r i =>
     simp only [step]; split
+    · exact h
+    rename_i hgc
+    split
     · rename_i g hpc
-      exact invR_finish h r i g none (by rw [hpc]; intro hh; cases hh) (by rw [hpc]; rfl)
+      exact invR_finish h r i g none hgc (by rw [hpc]; intro hh; cases hh) (by rw [hpc]; rfl)
     · rename_i g hpc
       split
-      · exact invR_finish h r i (some g) none (by rw [hpc]; intro hh; cases hh) (by rw [hpc]; rfl)
+      · exact invR_finish h r i (some g) none hgc (by rw [hpc]; intro hh; cases hh) (by rw [hpc]; rfl)
       · exact h
     · rename_i g res hpc
-      exact invR_finish h r i (some g) (some res) (by rw [hpc]; intro hh; cases hh) (by rw [hpc]; rfl)
+      exact invR_finish h r i (some g) (some res) hgc (by rw [hpc]; intro hh; cases hh) (by rw [hpc]; rfl)
+    · exact h
+  | gcTry r =>
+    simp only [step]; split
+    · rename_i hpc
+      split
+      · rename_i hc
+        have h1 : InvR env (s.setRun r { s.run r with pc := .inGc }) :=
+          invR_setRun h r _ rfl rfl (h.launchedLe r) (h.triedLe r) (by intro b hb; cases hb) (h.count r)
+            (h.batch r) (fun _ => h.all r (by rw [hpc]; rfl)) (fun _ => h.quiet r (by rw [hpc]; rfl))
+        split
+        · exact invR_slot h1 r _ rfl rfl (fun _ hh => hh) (by intro res; simp [hc.2]) (by intro res hh; cases hh)
+        · split
+          · exact invR_slot h1 r _ rfl rfl (fun _ hh => hh) (by intro res; simp [hc.2]) (by intro res hh; cases hh)
+          · exact invR_slot h1 r _ rfl rfl (fun _ hh => hh) (by intro res; simp [hc.2]) (by intro res hh; cases hh)
+      · exact h
+    · exact h
+  | gc r =>
+    simp only [step]; split
+    · split
+      · rename_i g hpc
+        exact invR_slot h r _ rfl rfl (fun _ hh => hh) (by intro res; simp [hpc]) (by intro res hh; cases hh)
+      · exact h
+    · exact h
+  | gcDone r =>
+    simp only [step]; split
+    · rename_i hrpc
+      have h1 : InvR env (s.setRun r { s.run r with pc := .gcOver }) :=
+        invR_setRun h r _ rfl rfl (h.launchedLe r) (h.triedLe r) (by intro b hb; cases hb) (h.count r)
+          (h.batch r) (fun _ => h.all r (by rw [hrpc]; rfl)) (fun _ => h.quiet r (by rw [hrpc]; rfl))
+      have hd : ∀ go r', dead (s.setRun r { s.run r with pc := .gcOver }) r' = true →
+          dead (gcFinish env s r go) r' = true := by
+        intro go r' hh
+        simp only [dead, gcFinish_locks, dead_relLocks]
+        exact hh
+      split
+      · rename_i g hpc
+        exact invR_slot h1 r (.finished none) (gcFinish_run ..) (gcFinish_pc ..) (hd g)
+          (by intro res; simp [hpc]) (by intro res hh; cases hh)
+      · rename_i g hpc
+        split
+        · exact invR_slot h1 r (.finished none) (gcFinish_run ..) (gcFinish_pc ..) (hd (some g))
+            (by intro res; simp [hpc]) (by intro res hh; cases hh)
+        · exact h
+      · exact h
     · exact h
 
 /-! ### all three together, for every reachable state -/
@@ -1143,6 +1404,7 @@ theorem dead_step (env : Env) (s : State) (ev : Ev) (r : Nat) (h : dead s r = tr
     | exact h
     | (simp only [dead, cancel_dead] at h ⊢; simp at h ⊢; exact Or.inr h)
     | (simp only [dead, finish_locks, dead_relLocks]; exact h)
+    | (simp only [dead, gcFinish_locks, dead_relLocks]; exact h)
 
 set_option linter.unusedSimpArgs false in
 theorem cancelled_step (env : Env) (s : State) (ev : Ev) (r : Nat) (hd : dead s r = true)
@@ -1153,12 +1415,12 @@ theorem cancelled_step (env : Env) (s : State) (ev : Ev) (r : Nat) (hd : dead s 
   all_goals first
     | exact ⟨hp, rfl⟩
     | exact ⟨hp, trivial⟩
-    | (simp only [setRun_run, setPc_run, finish_run]; split <;> simp_all)
+    | (simp only [setRun_run, setPc_run, finish_run, gcFinish_run]; split <;> simp_all)
     | (simp only [State.setPc, State.setRun]; split <;> simp_all)
     | (simp only [State.setPc, State.setRun]; exact ⟨hp, rfl⟩)
 
-/-- The worker an event belongs to. -/
-def Ev.worker : Ev → Option (Nat × Nat)
+/-- The program-counter slot an event works on. -/
+def Ev.worker (env : Env) : Ev → Option (Nat × Nat)
   | .tryLock r i => some (r, i)
   | .getOps r i => some (r, i)
   | .fetch r i => some (r, i)
@@ -1166,27 +1428,32 @@ def Ev.worker : Ev → Option (Nat × Nat)
   | .store r i => some (r, i)
   | .status r i => some (r, i)
   | .done r i => some (r, i)
+  | .gcTry r => some (r, env.gcInst)
+  | .gc r => some (r, env.gcInst)
+  | .gcDone r => some (r, env.gcInst)
   | _ => none
 
 set_option linter.unusedSimpArgs false in
-theorem pc_frame (env : Env) (s : State) (ev : Ev) (r i : Nat) (h : ev.worker ≠ some (r, i)) :
+theorem pc_frame (env : Env) (s : State) (ev : Ev) (r i : Nat) (h : ev.worker env ≠ some (r, i)) :
     (step env s ev).1.pc r i = s.pc r i := by
   cases ev <;> simp only [step] <;> repeat' split
   all_goals first
     | rfl
     | (simp only [Ev.worker, ne_eq, Option.some.injEq, Prod.mk.injEq] at h
-       simp only [finish_pc, setPc_pc, setRun_pc]
+       simp only [finish_pc, gcFinish_pc, setPc_pc, setRun_pc]
        rw [if_neg (fun hh => h ⟨hh.1.symm, hh.2.symm⟩)])
     | (simp only [Ev.worker, ne_eq, Option.some.injEq, Prod.mk.injEq] at h
        simp only [State.setPc, State.setRun]
        rw [if_neg (fun hh => h ⟨hh.1.symm, hh.2.symm⟩)])
 
 set_option linter.unusedSimpArgs false in
-theorem calls_frame (env : Env) (s : State) (ev : Ev) (r i : Nat) (h : ev.worker ≠ some (r, i)) :
+theorem calls_frame (env : Env) (s : State) (ev : Ev) (r i : Nat) (h : ev.worker env ≠ some (r, i)) :
     callsOf (step env s ev).1 r i = callsOf s r i := by
   cases ev with
   | store r0 i0 =>
     simp only [step]; split
+    · rfl
+    split
     · split
       · simp only [Ev.worker, ne_eq, Option.some.injEq, Prod.mk.injEq] at h
         have hf : ((r0 == r) && (i0 == i)) = false := by
@@ -1199,10 +1466,14 @@ theorem calls_frame (env : Env) (s : State) (ev : Ev) (r i : Nat) (h : ev.worker
     all_goals first
       | rfl
       | exact callsOf_congr (finish_calls ..) r i
+  | gcDone r0 =>
+    simp only [step]; repeat' split
+    all_goals first
+      | rfl
+      | exact callsOf_congr (gcFinish_calls ..) r i
   | _ =>
     simp only [step]; repeat' split
     all_goals rfl
-
 
 /-- Pigeonhole: a duplicate-free list inside a list that is not longer covers it. -/
 theorem subset_of_nodup_length_le : ∀ (l m : List Nat), l.Nodup → (∀ x ∈ l, x ∈ m) → m.length ≤ l.length →
@@ -1245,7 +1516,7 @@ theorem budget_step (env : Env) (s : State) (ev : Ev) (r : Nat) (hd : dead s r =
   cases ev <;> simp only [step] <;> repeat' split
   all_goals first
     | exact Nat.le_refl _
-    | (simp only [budget, setRun_run, setPc_run, finish_run]; split <;> simp_all <;> omega)
+    | (simp only [budget, setRun_run, setPc_run, finish_run, gcFinish_run]; split <;> simp_all <;> omega)
     | (simp only [budget, State.setPc, State.setRun]; split <;> simp_all <;> omega)
     | (simp only [budget, State.setPc, State.setRun]; exact Nat.le_refl _)
 
